@@ -1053,6 +1053,114 @@ static void fam_c07_random(G& g, Plan& p) {
   c07_tail(g, p, P0);
 }
 
+
+// ---------------------------------------------------------------------------------
+// C14: concurrent arena claims
+// ---------------------------------------------------------------------------------
+static void fam_c14_arena(G& g, Plan& p) {
+  size_t B = g.pick<size_t>({40, 66, 70, 130});
+  long delay = g.pick({0, 1, 10, 10, -1});
+  set_env(p, "PURGE_DELAY", delay); set_env(p, "ARENA_PURGE_MULT", g.pick({1, 10}));
+  int nt = 2 + (int)g.below(3);
+  p.nslots = 60; p.progs.resize((size_t)nt);
+  p.sample_verify = true;
+  Program& P0 = p.progs[0];
+  P0.ops.push_back(mk(OP_reserve_arena, 0, B * 32 * MiB, g.below(2), 1 /*exclusive*/));
+  for (int t = 1; t < nt; t++) P0.ops.push_back(mk(OP_spawn, t));
+  for (int t = 0; t < nt; t++) {
+    Program& P = p.progs[(size_t)t]; if (t) P.explicit_done = g.chance(0.5);
+    P.ops.push_back(mkh(OP_heap_new_in_arena, 0, 0));
+    int n = 10 + (int)g.below(40);
+    for (int i = 0; i < n; i++) {
+      int slot = (int)g.below((uint64_t)p.nslots); int k = (int)g.below(100);
+      if (k < 40) P.ops.push_back(mk(OP_free, slot));
+      else if (k < 46) P.ops.push_back(mk(OP_advance, -1, g.pick<uint64_t>({1, 11, 101, 200})));
+      else if (k < 52) P.ops.push_back(mk(OP_collect, -1, 0));
+      else {
+        int c = (int)g.below(10); size_t sz = c < 4 ? 17 * MiB + g.below(10 * MiB) : c < 6 ? 40 * MiB + g.below(20 * MiB) : 70 * MiB + g.below(130 * MiB);
+        Op o = mk(OP_malloc, slot, sz); o.hslot = 0; o.flags = OPF_MAY_FAIL; P.ops.push_back(o);
+      }
+    }
+  }
+  for (int t = 1; t < nt; t++) P0.ops.push_back(mk(OP_join, t));
+  P0.ops.push_back(mk(OP_verify_all));
+  P0.ops.push_back(mk(OP_free_all));
+  P0.ops.push_back(mk(OP_arena_fill_check, 0, g.below(2)));
+}
+
+// ---------------------------------------------------------------------------------
+// C15: arena-bound heaps and exclusive arenas
+// ---------------------------------------------------------------------------------
+static void fam_c15_arenas(G& g, Plan& p) {
+  if (g.chance(0.4)) set_env(p, "ABANDONED_RECLAIM_ON_FREE", 1);
+  if (g.chance(0.3)) set_env(p, "MAX_SEGMENT_RECLAIM", 100);
+  if (g.chance(0.15)) set_env(p, "DISALLOW_ARENA_ALLOC", 1);
+  int nt = 1 + (int)g.below(3);
+  p.nslots = 160; p.progs.resize((size_t)nt);
+  Program& P0 = p.progs[0];
+  int narenas = 1 + (int)g.below(2);
+  bool excl[2];
+  for (int a = 0; a < narenas; a++) {
+    excl[a] = g.chance(0.7);
+    if (g.chance(0.5)) P0.ops.push_back(mk(OP_reserve_arena, a, (64 + 32 * g.below(4)) * MiB, g.below(2), excl[a] ? 1 : 0));
+    else P0.ops.push_back(mk(OP_manage_arena, a, (64 + 32 * g.below(3)) * MiB + 4096 * g.below(2000), (g.chance(0.6) ? 1 : 0) | (excl[a] ? 2 : 0) | (g.chance(0.3) ? 4 : 0), 4096 * g.below(3000)));
+  }
+  for (int t = 1; t < nt; t++) P0.ops.push_back(mk(OP_spawn, t));
+  int mix = SM_SMALL | SM_BOUNDARY | SM_MEDIUM | (g.chance(0.6) ? SM_LARGE : 0);
+  for (int t = 0; t < nt; t++) {
+    Program& P = p.progs[(size_t)t]; if (t) P.explicit_done = g.chance(0.5);
+    for (int a = 0; a < narenas; a++) P.ops.push_back(mkh(OP_heap_new_in_arena, a, a));
+    int n = 30 + (int)g.below(120);
+    for (int i = 0; i < n; i++) {
+      int slot = (int)g.below(150); int k = (int)g.below(100);
+      if (k < 30) P.ops.push_back(mk(OP_free, slot));
+      else if (k < 34) P.ops.push_back(mk(OP_collect, -1, g.below(2)));
+      else if (k < 37) P.ops.push_back(mk(OP_check_owner, slot));
+      else if (k < 40) { Op o = mk(OP_realloc, slot, gen_size(g, mix)); o.hslot = g.chance(0.5) ? (int)g.below((uint64_t)narenas) : -1; o.flags = OPF_MAY_FAIL; P.ops.push_back(o); }
+      else {
+        Op o = mk(g.chance(0.1) ? OP_zalloc : OP_malloc, slot, g.chance(0.1) ? 17 * MiB + g.below(30 * MiB) : gen_size(g, mix));
+        if (g.chance(0.5)) { o.hslot = (int)g.below((uint64_t)narenas); o.flags = OPF_MAY_FAIL; }    // bound heap: NULL when its arena is full
+        P.ops.push_back(o);
+      }
+    }
+    if (t == 0 && g.chance(0.3)) {   // fill the arena: the bound heap must answer NULL, never fall back to the OS
+      for (int i = 0; i < 12; i++) { Op o = mk(OP_malloc, 150 + (i % 10), 20 * MiB); o.hslot = 0; o.flags = OPF_MAY_FAIL; P.ops.push_back(o); }
+    }
+  }
+  for (int t = 1; t < nt; t++) P0.ops.push_back(mk(OP_join, t));
+  // adoption by the main thread's forced collect, then allocations from main's default heap in the same size classes
+  P0.ops.push_back(mk(OP_collect, -1, 1));
+  for (int i = 0; i < 40; i++) P0.ops.push_back(mk(OP_malloc, 100 + (i % 50), gen_size(g, mix)));
+  for (int i = 0; i < 10; i++) P0.ops.push_back(mk(OP_check_owner, (int)g.below(150)));
+  P0.ops.push_back(mk(OP_verify_all));
+}
+
+// ---------------------------------------------------------------------------------
+// C17: hardened builds detect misuse
+// ---------------------------------------------------------------------------------
+static void fam_c17_misuse(G& g, Plan& p) {
+  int nt = g.chance(0.2) ? 2 : 1;
+  p.nslots = 200; p.progs.resize((size_t)nt);
+  p.cfg.spurious_p = 0;
+  Program& P = p.progs[0];
+  int mix = SM_SMALL | SM_BOUNDARY;
+  int kind = (int)g.below(3);
+  int n = 40 + (int)g.below(200);
+  // a few size classes so that pages hold several live blocks
+  std::vector<size_t> cls; for (int i = 0; i < 3; i++) cls.push_back(class_req(g, 44));
+  for (int i = 0; i < n; i++) {
+    int slot = (int)g.below(150); int k = (int)g.below(100);
+    if (k < 25) P.ops.push_back(mk(OP_free, slot));
+    else if (k < 30) P.ops.push_back(gen_realloc(g, slot, mix, 0, false));
+    else if (k < 33) P.ops.push_back(mk(OP_collect, -1, g.below(2)));
+    else if (k < 41) P.ops.push_back(mk(kind == 0 ? OP_double_free : kind == 1 ? OP_overflow_byte : OP_corrupt_free_link, slot, g.below(1000000)));
+    else P.ops.push_back(mk(g.chance(0.1) ? OP_zalloc : OP_malloc, slot, g.chance(0.7) ? cls[g.below(cls.size())] : gen_size(g, mix)));
+    if (g.chance(0.02)) kind = (int)g.below(3);
+  }
+  if (nt > 1) { P.ops.insert(P.ops.begin() + (long)(P.ops.size() / 2), mk(OP_spawn, 1)); Program& Q = p.progs[1]; for (int i = 0; i < 40; i++) Q.ops.push_back(g.chance(0.6) ? mk(OP_malloc, 150 + (int)g.below(40), cls[0]) : mk(OP_free, 150 + (int)g.below(40))); }
+  P.ops.push_back(mk(OP_verify_all));
+}
+
 // ---------------------------------------------------------------------------------
 // registry
 // ---------------------------------------------------------------------------------
@@ -1077,6 +1185,9 @@ static const FamilyDef FAMILIES[] = {
   {"c18_purge", "C18", fam_c18_purge, 0, false},
   {"c07_base", "C07", fam_c07_base, 0, false},
   {"c07_random", "C07", fam_c07_random, 1, false},
+  {"c14_arena", "C14", fam_c14_arena, 0, true},
+  {"c15_arenas", "C15", fam_c15_arenas, 0, true},
+  {"c17_misuse", "C17", fam_c17_misuse, 1, true},
   {"c03_align", "C03", fam_c03_align, 1, false},
   {"c04_dirty", "C04", fam_c04_dirty, 1, true},
   {"c04_grow", "C04", fam_c04_grow, 1, false},
